@@ -1,15 +1,55 @@
-(* C20 property theorems (statements closed by [exact]); filled as the proofs land. *)
-From Coq Require Import ZArith List Floats.SpecFloat.
-From Tbfmm Require Import Num.P2PDefs Num.P2PSF.
+(* C20 — direct particle-particle routines implement the pairwise law, symmetrically.
+   The laws are proved for the real-number instance of the SAME generic Gallina term (Num/P2PDefs.v) whose IEEE instances
+   (Num/P2PSF.v) are executed bit-identically against the C++ on every run.  Proofs in Num/P2PReal.v.
+   Axioms: the classical real numbers of Coq's standard library (listed by Print Assumptions below). *)
+From Coq Require Import Reals ZArith List Floats.SpecFloat.
+From Tbfmm Require Import Num.P2PDefs Num.P2PSF Num.P2PReal.
 Import ListNotations.
-Local Open Scope Z_scope.
+Local Open Scope R_scope.
 
-(* the binary64 instance computes 1/r for r = 2 exactly: potential of a unit charge at distance 2 is 0.5 *)
+(* one pair: force q_t q_s (x_s - x_t)/r^3 and 1/r *)
+Theorem C20_pair_law : forall s t, apart s t ->
+  pair R r_ops s t = (f_x _ (contrib s t), f_y _ (contrib s t), f_z _ (contrib s t), / rdist s t).
+Proof. exact pair_law. Qed.
+Print Assumptions C20_pair_law.
+
+(* GenericFullRemote: each target receives the sum over all sources of potential q_j/r and force q_i q_j (x_j - x_i)/r^3,
+   added to its previous accumulators - any counts including zero *)
+Theorem C20_remote_law : forall srcs tgts, Forall (fun tr => Forall (fun s => apart s (fst tr)) srcs) tgts ->
+  full_remote R r_ops srcs tgts = map (fun tr => radd (snd tr) (rsum (map (fun s => contrib s (fst tr)) srcs))) tgts.
+Proof. exact remote_law. Qed.
+Print Assumptions C20_remote_law.
+
+(* FullMutual = two one-sided calls: targets as GenericFullRemote(sources -> targets), sources as
+   GenericFullRemote(targets -> sources); positions and charges untouched *)
+Theorem C20_mutual_split : forall srcs tgts, Forall (fun tr => Forall (fun sr => apart (fst sr) (fst tr)) srcs) tgts ->
+  snd (full_mutual R r_ops srcs tgts) = full_remote R r_ops (map fst srcs) tgts /\
+  map fst (fst (full_mutual R r_ops srcs tgts)) = map fst srcs /\
+  map snd (fst (full_mutual R r_ops srcs tgts)) = full_remote R r_ops (map fst tgts) srcs.
+Proof. exact mutual_split. Qed.
+Print Assumptions C20_mutual_split.
+
+(* equal and opposite forces; potentials symmetric in the charges *)
+Theorem C20_contrib_antisym : forall s t, apart s t ->
+  f_x _ (contrib t s) = - f_x _ (contrib s t) /\ f_y _ (contrib t s) = - f_y _ (contrib s t) /\ f_z _ (contrib t s) = - f_z _ (contrib s t)
+  /\ p_v _ s * f_p _ (contrib t s) = p_v _ t * f_p _ (contrib s t).
+Proof. exact contrib_antisym. Qed.
+Print Assumptions C20_contrib_antisym.
+
+(* GenericInner: every particle receives all the OTHERS and no self term, for any count including 0 and 1 *)
+Theorem C20_inner_law : forall ps, ForallOrdPairs (fun a b => apart (fst a) (fst b)) ps ->
+  forall i, (i < length ps)%nat ->
+    let pi := nth i ps (Build_part R 0 0 0 0, rhs0 R r_ops) in
+    nth i (inner R r_ops ps) (rhs0 R r_ops) =
+    radd (snd pi) (rsum (map (fun pj => contrib (fst pj) (fst pi)) (firstn i ps ++ skipn (S i) ps))).
+Proof. exact inner_law. Qed.
+Print Assumptions C20_inner_law.
+
+(* the binary64 instance of the same term: potential of a unit charge at distance 2 is exactly 0.5 *)
 Example C20_example :
   let o := sf_ops 53 1024 in
   let one := o_one o in let two := SFadd 53 1024 one one in let z := o_zero o in
   map (fun r => bits_of_sf 53 1024 (f_p _ r))
       (full_remote _ o [{| p_x := two; p_y := z; p_z := z; p_v := one |}] [({| p_x := z; p_y := z; p_z := z; p_v := one |}, rhs0 _ o)])
-  = [4602678819172646912].
+  = [4602678819172646912%Z].
 Proof. vm_compute. reflexivity. Qed.
-Print Assumptions C20_example.
